@@ -704,9 +704,223 @@ def read_cases(path):
     cases = []
     for l in open(path).read().split("\n"):
         if not l.strip() or l.startswith("#"): continue
-        if l.startswith("I ") or l.startswith("L "): cases.append([l])
+        if l.startswith("I ") or l.startswith("L ") or l.startswith("N "): cases.append([l])
         elif cases: cases[-1].append(l)
     return cases
+
+
+# ------------------------------------------------------------------ trust-region Newton (harness/c10_trn.cpp)
+TRN_SRC = ["src/Algorithms/GradientDescent/TrustRegionNewton.cpp", "src/Core/Random.cpp"]
+TRN_RAT_N = 6          # the rational instance replays quadratics up to this dimension
+TRN_BUDGET = 200      # steps within which the minimiser of a strictly convex quadratic (cond <= 1e8, radius 1e-3..1e3) must be reached
+
+def trn_header(kind, n, A, b, x0, params, stream="replay", fmt=hx):
+    return "N %s %d %s | %s | %s | %s | %s" % (kind, n, stream, " ".join(fmt(v) for v in A), " ".join(fmt(v) for v in b), " ".join(fmt(v) for v in x0),
+                                          " ".join(p if isinstance(p, str) else fmt(p) for p in params))
+
+def parse_trn_header(l):
+    g = [x.split() for x in l[2:].split("|")]
+    def num(t):
+        if "/" in t:
+            a, b = t.split("/"); return float(Fraction(int(a), int(b)))
+        try: return float(int(t))
+        except ValueError: return float.fromhex(t) if "x" in t.lower() else float(t)
+    return {"kind": g[0][0], "n": int(g[0][1]), "A": [num(t) for t in g[1]], "b": [num(t) for t in g[2]], "x0": [num(t) for t in g[3]],
+            "delta0": 0.1 if g[4][0] == "default" else num(g[4][0]), "ratio": num(g[4][1]) if len(g[4]) > 1 else 0.1, "stream": g[0][2] if len(g[0]) > 2 else "replay"}
+
+TRN_RADII = ["default", "default", 0.1, 1e-3, 0.01, 0.5, 1.0, 2.0, 10.0, 100.0, 1e3]
+
+def gen_trn(rng, big=False):
+    """TrustRegionNewton histories aimed at the case splits of step / trustRegionCG:
+       spd     strictly convex quadratics (condition 1 .. 1e8), random start: CG exits by tolerance, border hits for small radii
+       axis    axis-parallel quadratics with power-of-two curvatures and integer minimiser, start on the integer / half-integer
+               grid, AT the minimiser, or one exact Newton step away from it: the gradient becomes EXACTLY zero (0/0 in borderDistance)
+       rosen   Rosenbrock-type, random start, start at the optimum, start in the region of negative curvature (normH <= 0);
+               large radii: rho below 0.25 / negative / between the thresholds; other minImprovementRatio values
+       indef   indefinite, singular (normH == 0) and linear (A = 0) quadratics: border steps along non-positive curvature, few steps
+    every history continues well past convergence (blocks R k after the step budget)."""
+    stream = rng.choice(["spd", "spd", "spd", "axis", "axis", "rosen", "rosen", "indef"])
+    params = [rng.choice(TRN_RADII)]
+    conv = False
+    if stream == "spd":
+        n = rng.randint(1, 6); cond = rng.choice([1, 10, 100, 1e3, 1e4, 1e6, 1e8]) if n > 1 else 1
+        A = spd(rng, n, cond); b = [rng.gauss(0, 3) for _ in range(n)]; x0 = [rng.uniform(-3, 3) for _ in range(n)]
+        if rng.random() < 0.15:
+            sc = 2.0 ** rng.choice([-20, -10, 10, 20]); A = [[v * sc for v in r] for r in A]; b = [v * sc for v in b]      # badly scaled objective
+        Af = [v for r in A for v in r]; kind = "quad"; conv = True
+    elif stream == "axis":
+        n = rng.randint(1, 5); diag = [2.0 ** rng.randint(-3, 4) for _ in range(n)]
+        if rng.random() < 0.4: diag = [diag[0]] * n           # multiple of the identity: one CG iteration, the Newton step is exact
+        c = [float(rng.randint(-4, 4)) for _ in range(n)]
+        Af = [diag[i] if i == j else 0.0 for i in range(n) for j in range(n)]; b = [diag[i] * c[i] for i in range(n)]
+        r = rng.random()
+        if r < 0.25: x0 = list(c)                                                               # exactly the minimiser
+        elif r < 0.5:                                                                           # reaches the minimiser after finitely many steps
+            x0 = list(c); j = rng.randrange(n); x0[j] += rng.choice([-1, 1]) * 2.0 ** rng.randint(-6, 3)
+        elif r < 0.8: x0 = [ci + rng.randint(-6, 6) / 2.0 for ci in c]
+        else: x0 = [rng.uniform(-5, 5) for _ in range(n)]
+        if rng.random() < 0.5: params = [rng.choice([2.0 ** k for k in range(-6, 6)])]
+        kind = "quad"; conv = True
+    elif stream == "rosen":
+        n = rng.randint(2, 4); p = rng.choice([1.0, 10.0, 100.0]); Af = [p]; b = [0.0] * n; kind = "rosen"
+        r = rng.random()
+        if r < 0.15: x0 = [1.0] * n
+        elif r < 0.45: x0 = [rng.uniform(-1, 1) for _ in range(n - 1)] + [rng.uniform(1, 3)]; x0[-1] += 3 * x0[-2] ** 2      # negative curvature in coordinate n-2
+        else: x0 = [rng.uniform(-1.5, 1.5) for _ in range(n)]
+        if rng.random() < 0.4: params = [rng.choice([10.0, 100.0, 1e3, 3.0])]
+        if rng.random() < 0.3: params.append(rng.choice([0.01, 0.25, 0.3, 0.5, 0.75, 0.9]))
+    else:
+        n = rng.randint(1, 4); r = rng.random(); kind = "quad"
+        if r < 0.25: Af = [0.0] * (n * n)                                                        # linear objective
+        else:
+            A = spd(rng, n, rng.choice([1, 10, 100])); j = rng.randrange(n); lam = rng.choice([0.0, 0.0, -0.25, -1.0, -3.0])
+            if rng.random() < 0.5:
+                for i in range(n): A[i][j] = A[j][i] = 0.0
+                A[j][j] = lam
+            else:
+                s = max(abs(A[i][i]) for i in range(n))
+                for i in range(n): A[i][i] -= 1.5 * s * rng.random()
+            Af = [v for r_ in A for v in r_]
+        b = [rng.choice([0.0, 1.0, -1.0, rng.gauss(0, 2)]) for _ in range(n)]; x0 = [rng.choice([0.0, 0.0, 1.0, rng.uniform(-2, 2)]) for _ in range(n)]
+    hd = trn_header(kind, n, Af, b, x0, params, stream)
+    ops = ["S"] * rng.randint(2, 8)
+    if stream == "indef": ops.append("R %d" % rng.randint(1, 20))
+    else:
+        ops.append("R %d" % rng.randint(5, 40))
+        done = sum(steps_of(o) for o in ops)
+        if conv or rng.random() < 0.5: ops.append("R %d" % max(1, TRN_BUDGET - done))
+        ops += ["S"] * rng.randint(1, 3)                 # single (replayed) steps after convergence
+        ops.append("R %d" % rng.choice([10, 50, 100, 300, 700] if not big else [10, 100, 700, 1500]))
+    return [hd] + ops
+
+def monitor_trn(case, out):
+    """spec monitor of the trust-region Newton histories (implementation output only): [(key, message)]"""
+    h = parse_trn_header(case[0]); n = h["n"]; kind = h["kind"]; stream = h["stream"]
+    A = [h["A"][i * n:(i + 1) * n] for i in range(n)] if kind == "quad" else None
+    convex = kind == "quad" and stream in ("spd", "axis")
+    shape = "TRN:%s:%s" % (kind, stream)
+    bad = []
+    def fail(pred, idx, msg):
+        bad.append(("monitor:%s:%s" % (pred, shape), "line %d `%s` of %s n=%d delta0=%r minImprovementRatio=%r: %s" % (idx, case[idx] if idx else "N ...", shape, n, h["delta0"], h["ratio"], msg)))
+    prev = None; total = 0
+    for idx, (l, o) in enumerate(zip(case, out)):
+        if o.startswith("EXC"):
+            fail("exception", idx, "the library threw: " + o[4:200]); break
+        if o in ("?", "BADLINE"):
+            fail("harness", idx, "harness could not read the line"); break
+        d = kv(o)
+        if "pt" not in d:
+            fail("harness", idx, "no state printed"); break
+        total += steps_of(l)
+        if not same_bits(d["val"], d["reval"]):
+            fail("value-consistent", idx, "reported value %s != objective at the reported point %s = %s (%r vs %r)" % (d["val"], fvec(d["pt"]), d["reval"], fh(d["val"]), fh(d["reval"])))
+        if d["fin"] != "1":
+            fail("finite", idx, "reported point/value not finite: %s / %s" % (d["pt"], d["val"]))
+        if not (same_vec(d["grad"], d["regrad"]) and same_vec(d["hess"], d["rehess"])):
+            fail("derivative-consistent", idx, "stored gradient / Hessian %s / %s != derivatives at the reported point %s / %s" % (fvec(d["grad"]), fvec(d["hess"]), fvec(d["regrad"]), fvec(d["rehess"])))
+        v = fh(d["val"])
+        if prev is not None and l[0] in "SR" and not (v <= prev):
+            fail("monotone", idx, "the step increased the objective: %r -> %r" % (prev, v))
+        if l.startswith("R"):
+            if not fh(d["maxinc"]) <= 0:
+                fail("monotone", idx, "step %s of this block increased the objective by %r" % (d["incat"], fh(d["maxinc"])))
+            if d["ncons"] != "0":
+                fail("value-consistent", idx, "%s steps of this block (first: %s) report a value different from the objective at the reported point" % (d["ncons"], d["consat"]))
+            if d["nder"] != "0":
+                fail("derivative-consistent", idx, "%s steps of this block (first: %s) keep a gradient / Hessian that is not the one of the reported point" % (d["nder"], d["derat"]))
+            if d["nfin"] != "0":
+                fail("finite", idx, "%s steps of this block report non-finite point/value" % d["nfin"])
+        prev = v
+        if bad: break
+    if not bad and convex and len(out) == len(case) and total >= TRN_BUDGET:
+        xs = solve(A, h["b"])
+        if xs is not None:
+            pt = fvec(kv(out[-1])["pt"])
+            err = max(abs(a - b) for a, b in zip(pt, xs)); ref = 1 + max(abs(x) for x in xs)
+            if not (err <= CONV_TOL * ref):
+                bad.append(("monitor:converge:%s" % shape, "%s n=%d delta0=%r: after %d steps (budget %d) |x - x*|_inf = %.3g > %g * (1 + |x*|_inf)" % (shape, n, h["delta0"], total, TRN_BUDGET, err, CONV_TOL)))
+    return bad
+
+
+def sigbits_py(v):
+    if v == 0 or not math.isfinite(v): return 0 if v == 0 else 64
+    m, _ = math.frexp(abs(v)); k = int(m * (1 << 53)); tz = (k & -k).bit_length() - 1
+    return 53 - tz
+
+def build_trn_replays(cases, io):
+    """[(case index, line index, model line, state before, state after, header)] for every single step S of a trust-region
+    Newton history: the step is replayed by the extracted tr_step (double instance; rational instance on short-mantissa
+    quadratics, n <= 4) from the state the C++ reported before it"""
+    reps = []
+    H = lambda k_: " ".join(hx(v) for v in fvec(k_))
+    for ci, c in enumerate(cases[:len(io)]):
+        out, rc, _ = io[ci]; h = None
+        for idx in range(1, min(len(c), len(out))):
+            if c[idx] != "S" or out[idx].startswith("EXC") or out[idx - 1].startswith("EXC") or out[idx] in ("?", "BADLINE"): continue
+            pre, post = kv(out[idx - 1]), kv(out[idx])
+            if "pt" not in pre or "pt" not in post or pre.get("fin") != "1": continue
+            if h is None: h = parse_trn_header(c[0])
+            n = h["n"]
+            nums = h["A"] + h["b"] + fvec(pre["pt"]) + [fh(pre["val"]), fh(pre["delta"])] + fvec(pre["grad"])
+            rat = 1 if h["kind"] == "quad" and n <= TRN_RAT_N and all(math.isfinite(v) for v in nums) else 0
+            line = "T %d %s %d | %s | %s | %s | %s %s %s | %s | %s | %s | %s | %s | %s" % (
+                n, h["kind"], rat, " ".join(hx(v) for v in h["A"]), " ".join(hx(v) for v in h["b"]), H(pre["pt"]), pre["val"], pre["delta"], pre["ratio"],
+                H(pre["grad"]), H(pre["hess"]), post["tval"] if post.get("ntrial") == "1" else "-", post["val"], H(post["grad"]), H(post["hess"]))
+            reps.append((ci, idx, line, pre, post, h))
+    return reps
+
+def judge_trn_replay(mout, pre, post, h):
+    """(class, difference or None, monitor messages).  Monitors (implementation only): the radius stays positive and finite,
+    changes only by the factors 1/4, 1, 2; operator() is called at most once and evalDerivative exactly when the point moved."""
+    m = kv(mout); mon = []
+    d0, d1 = fh(pre["delta"]), fh(post["delta"])
+    if not (d1 > 0 and math.isfinite(d1)): mon.append(("monitor:trn-radius-positive", "the trust-region radius is %r after the step (before: %r)" % (d1, d0)))
+    if "pt" not in m: return "diff", "model printed `%s`" % mout[:100], mon
+    moved = not same_vec(pre["pt"], post["pt"]); acc_impl = post["nderiv"] == "1"
+    if moved and not acc_impl: mon.append(("monitor:trn-accept-without-derivative", "the point changed without an evalDerivative call"))
+    zero_grad = all(v == 0 for v in fvec(pre["grad"]))
+    cls = "%s/%s/%s/%s" % (m["exit"] + ("(zero-gradient)" if zero_grad else "") + ("@it%s" % (m["iters"] if int(m["iters"]) < 3 else "3+") if m["exit"] in ("border", "negcurv") else ""),
+                           "done" if post["ntrial"] == "0" else "nan" if "nan" in post.get("tval", "") else ("rho<0" if fh(m["rho"]) < 0 else "rho<ratio" if fh(m["rho"]) < fh(pre["ratio"]) else "rho<.25" if fh(m["rho"]) < 0.25 else "rho<=.75" if fh(m["rho"]) <= 0.75 else "rho>.75"),
+                           "shrink" if d1 < d0 else "grow" if d1 > d0 else "keep", "accept" if acc_impl else "reject")
+    if "nan" in post.get("tval", "") or "nan" in mout.split(" q=")[0]:
+        # NaN step (0/0 in borderDistance at an exactly zero gradient): the double instance follows IEEE, the state must not change
+        same = same_vec(m["pt"], post["pt"]) and same_bits(m["val"], post["val"]) and same_bits(m["delta"], post["delta"])
+        return cls, (None if same else "NaN step: model state %s / %s / %s, implementation %s / %s / %s" % (m["pt"], m["val"], m["delta"], post["pt"], post["val"], post["delta"])), mon
+    # near ties of the rounded comparisons (rho against 0.25 / 0.75 / the ratio; |step|^2 against 0.99 delta^2): not determined by the model
+    rho = fh(m["rho"]); sol = fvec(m["sol"]); ns = sum(v * v for v in sol)
+    if post["ntrial"] == "1" and (any(abs(rho - t) <= 1e-6 * max(1.0, abs(rho)) for t in (0.25, 0.75, fh(pre["ratio"]))) or abs(ns - 0.99 * d0 * d0) <= 1e-6 * d0 * d0):
+        return cls + "/threshold-rounding-sensitive", None, mon
+    # double instance
+    if post["ntrial"] == "1":
+        tp = fvec(post["tpt"]); tm = fvec(m["trial"]); sc = max([1.0] + [abs(v) for v in tp])
+        if any(not abs(a - b) <= TOL * sc for a, b in zip(tm, tp)):
+            return cls, "trial point (point + CG step): model (double instance) %s, implementation %s" % (tm, tp), mon
+    elif m["pred"] not in ("0x0p+0", "-0x0p+0"):
+        return cls, "the implementation evaluated nothing (solution.first == 0), the model's predicted change is %s" % m["pred"], mon
+    if (m["acc"] == "1") != acc_impl: return cls, "acceptance: model %s (rho = %r), implementation %s" % (m["acc"], rho, acc_impl), mon
+    if fh(m["delta"]) != d1: return cls, "radius: model %r, implementation %r (rho = %r)" % (fh(m["delta"]), d1, rho), mon
+    pm = fvec(m["pt"]); pi = fvec(post["pt"]); sc = max([1.0] + [abs(v) for v in pi])
+    if any(not abs(a - b) <= TOL * sc for a, b in zip(pm, pi)): return cls, "point: model (double instance) %s, implementation %s" % (pm, pi), mon
+    if not abs(fh(m["val"]) - fh(post["val"])) <= TOL * max(1.0, abs(fh(post["val"]))): return cls, "value: model %r, implementation %r" % (fh(m["val"]), fh(post["val"])), mon
+    # rational instance
+    if m.get("q") == "1":
+        exact = post["ex"] == "1" and m["sqex"] == "1"
+        qrho = fh(m["qrho"])
+        if not exact and post["ntrial"] == "1" and any(abs(qrho - t) <= 1e-6 * max(1.0, abs(qrho)) for t in (0.25, 0.75, fh(pre["ratio"]))):
+            return cls + "/threshold-rounding-sensitive", None, mon
+        if (m["qacc"] == "1") != acc_impl: return cls, "acceptance: rational model %s (rho = %r), implementation %s" % (m["qacc"], qrho, acc_impl), mon
+        if exact:
+            xp = [qfrac(t) for t in m["xpt"].split(",")]
+            if len(xp) != len(pi) or any(Fraction(q) != p_ for p_, q in zip(xp, pi)): return cls, "exact regime: point of the rational model %s, implementation %s" % ([float(x) for x in xp], pi), mon
+            if Fraction(fh(post["val"])) != qfrac(m["xval"]): return cls, "exact regime: value of the rational model %s, implementation %r" % (m["xval"], fh(post["val"])), mon
+            if Fraction(d1) != qfrac(m["xdelta"]): return cls, "exact regime: radius of the rational model %s, implementation %r" % (m["xdelta"], d1), mon
+            return cls + "/rational-exact", None, mon
+        qp = fvec(m["qpt"])
+        if any(not abs(a - b) <= TOL * sc for a, b in zip(qp, pi)): return cls, "point: rational model %s, implementation %s" % (qp, pi), mon
+        if fh(m["qdelta"]) != d1: return cls, "radius: rational model %r, implementation %r" % (fh(m["qdelta"]), d1), mon
+        if not abs(fh(m["qval"]) - fh(post["val"])) <= TOL * max(1.0, abs(fh(post["val"]))): return cls, "value: rational model %r, implementation %r" % (fh(m["qval"]), fh(post["val"])), mon
+        return cls + "/rational-1e-9", None, mon
+    return cls + "/double-1e-9", None, mon
 
 
 def main():
@@ -746,14 +960,16 @@ def main():
     big = ck.tier == "thorough"
     rng = ck.rng
 
-    # TrustRegionNewton: the property lists it, the tree cannot instantiate it
+    # TrustRegionNewton: abstract at the pinned tree (its two-argument init does not override the pure virtual one); the
+    # harness drives the real class through a subclass that supplies the override
     trn = os.path.join(tmpd, "c10_trn.cpp")
     src = "#include <shark/Algorithms/GradientDescent/TrustRegionNewton.h>\nint main(){ shark::TrustRegionNewton o; return 0; }\n"
     if not os.path.exists(trn) or open(trn).read() != src: open(trn, "w").write(src)
     rc, _, e = sh([CXX] + CXXFLAGS + repo_includes() + ["-fsyntax-only", trn], timeout=600)
-    ck.oblige("TrustRegionNewton is still abstract (not instantiable, hence outside this check)", rc != 0 and "abstract" in e,
-              "" if rc != 0 else "TrustRegionNewton can be instantiated now: extend harness/c10_opt.cpp and the generators")
-    ck.notes["TrustRegionNewton"] = "not instantiable: " + (re.search(r"error: ([^\n]*abstract[^\n]*)", e).group(1)[:200] if rc != 0 and re.search(r"error: ([^\n]*abstract[^\n]*)", e) else "compiles" if rc == 0 else e[-200:])
+    ck.notes["TrustRegionNewton"] = ("instantiable" if rc == 0 else "abstract in this tree (" + (re.search(r"error: ([^\n]*abstract[^\n]*)", e).group(1)[:200] if re.search(r"error: ([^\n]*abstract[^\n]*)", e) else e[-200:]) + ")") + "; checked through the override shim of harness/c10_trn.cpp"
+    trn_exe, err = cxx_build("c10_trn", [os.path.join(ROOT, "harness", "c10_trn.cpp")] + repo_src(*TRN_SRC))
+    ck.oblige("TrustRegionNewton (src/Algorithms/GradientDescent/TrustRegionNewton.cpp of the working tree) builds with the harness subclass that supplies the missing init override", trn_exe is not None, err[-1500:] if trn_exe is None else "")
+    if trn_exe is None: ck.finish()
 
     if ck.replay:
         cases = read_cases(ck.replay)
